@@ -221,6 +221,20 @@ def run(ctx):
                  "on %s the inscribed-bytes hash is selected %s at its activation height (must be %s) and %s at the height below (must be %s)" % (
                      net, sorted(got_at), sorted(want_at), sorted(got_bf), sorted(want_before) if want_before else "-"),
                  sample={"rule": "DERIVE (abstract execution)", "fn": "use_rlp_hash_for_tx_hash", "network": net, "at": sorted(got_at), "before": sorted(got_bf)})
+    # the EVM rule set is selected by height the same way: two builds of one protocol version must switch at the same block
+    gsp = F.fn_opt("engine::hardforks::get_evm_spec")
+    R.floor("evm_spec_selector", 1 if gsp is not None else 0, 1)
+    if gsp is not None:
+        gsp = F.inlined(gsp)
+        hp2 = (gsp.j.get("param_names") or ["block_number"])[0]
+        for net, want_at, want_before in (("Bitcoin", {"PRAGUE"}, {"CANCUN"}), ("Signet", {"PRAGUE"}, {"CANCUN"}), ("Regtest", {"PRAGUE"}, None)):
+            got_at, _c1 = boundary.outcomes(F, gsp, hp2, net, "at")
+            got_bf, _c2 = boundary.outcomes(F, gsp, hp2, net, "before")
+            R.ob(got_at == want_at and (want_before is None or got_bf == want_before), "DERIVE", gsp.where(), "DERIVE|evm-spec|boundary:%s" % net,
+                 "on %s the rule set at the activation height is %s (pinned: %s) and at the height below it %s (pinned: %s): a replica of this build "
+                 "executes one block under other rules than a reference replica of the same protocol version" % (
+                     net, sorted(got_at), sorted(want_at), sorted(got_bf), sorted(want_before or [])),
+                 sample={"rule": "DERIVE (abstract execution)", "fn": "get_evm_spec", "network": net, "at": sorted(got_at), "before": sorted(got_bf)})
     # ---- 4. CONST
     man = construle.manifest(F, ctx.repo)
     pinned = ctx.table(PINNED)
